@@ -6,7 +6,7 @@ PROPS = {
     "C01": dict(fams=[("encgrid", 0, 0), ("s1", 1500, 60000), ("sm", 800, 30000), ("cs", 900, 30000), ("he", 500, 20000)],
                 real=[("chain", 140, 6000)]),
     "C02": dict(fams=[("seqgrid", 40, 2000), ("tbsgrid", 0, 0), ("encgrid", 0, 0), ("v1", 2000, 100000), ("vm", 1000, 50000), ("s1", 800, 40000), ("sm", 500, 20000)]),
-    "C03": dict(fams=[("tbsgrid", 0, 0), ("v1", 2500, 100000), ("vm", 1000, 50000), ("cs", 600, 30000), ("ecgrid", 0, 0)],
+    "C03": dict(fams=[("tbsgrid", 0, 0), ("v1", 2500, 100000), ("vm", 1000, 50000), ("cs", 600, 30000), ("ecgrid", 0, 0), ("he", 600, 20000)],
                 real=[("tamper", 200, 8000)]),
     "C04": dict(fams=[("seqgrid", 40, 2000), ("alggrid", 0, 0), ("s1", 300, 20000), ("he", 200, 5000)]),
     "C05": dict(fams=[("depthgrid", 0, 0), ("dec", 6000, 600000), ("dechdr", 2000, 100000), ("hdrgrid", 0, 0)]),
@@ -25,7 +25,7 @@ PROPS = {
     "C15": dict(fams=[("keygrid", 1500, 150000)]),
     "C16": dict(fams=[("ecgrid", 0, 0), ("ecfault", 0, 0)]),
     "C17": dict(fams=[("newgrid", 0, 0)], real=[("digest", 40, 1000)]),
-    "C18": dict(fams=[("seqgrid", 40, 2000), ("v1", 800, 20000), ("vm", 400, 10000), ("cs", 500, 10000), ("he", 300, 5000),
+    "C18": dict(fams=[("seqgrid", 40, 2000), ("encgrid", 0, 0), ("v1", 800, 20000), ("vm", 400, 10000), ("cs", 500, 10000), ("he", 300, 5000),
                       ("keygrid", 100, 3000), ("enc", 500, 10000)],
                 real=[("conc", 60, 2000)]),
     "C19": dict(fams=[("seqgrid", 40, 2000), ("hist", 3000, 300000)]),
@@ -52,7 +52,7 @@ ASSUMPTIONS = [
 
 # additional theorem modules per property (namespace Cxx), beyond CoseProofs.Props.Cxx
 DEEP = {
-    "C01": ["CoseProofs.Deep.Chain"],
+    "C01": ["CoseProofs.Deep.Chain", "CoseProofs.Deep.WireClosure"],
     "C02": ["CoseProofs.Deep.Tbs"],
     "C03": ["CoseProofs.Deep.Tbs", "CoseProofs.Deep.Tamper"],
     "C04": ["CoseProofs.FactsTie", "CoseProofs.Deep.Tamper"],
@@ -63,7 +63,7 @@ DEEP = {
     "C09": ["CoseProofs.Deep.Reencode", "CoseProofs.Deep.SignMsg"],
     "C11": ["CoseProofs.Deep.SignMsg"],
     "C10": ["CoseProofs.Deep.Tbs", "CoseProofs.FactsTie", "CoseProofs.Deep.Tamper"],
-    "C12": ["CoseProofs.Deep.Keys", "CoseProofs.Deep.Chain", "CoseProofs.FactsTie"],
+    "C12": ["CoseProofs.Deep.Keys", "CoseProofs.Deep.Chain", "CoseProofs.FactsTie", "CoseProofs.Deep.WireClosure"],
     "C13": ["CoseProofs.Deep.Headers", "CoseProofs.FactsTie", "CoseProofs.Deep.Verifies"],
     "C14": ["CoseProofs.Deep.Keys"],
     "C15": ["CoseProofs.Deep.Keys", "CoseProofs.FactsTie"],
